@@ -56,7 +56,9 @@ def run_tlc(module, cfg=None, workers=8, env=None, name=None, simulate=None, cov
     e = {"JAVA_TOOL_OPTIONS": jopts, "JDK_JAVA_OPTIONS": "-Xss%s" % xss}
     if env:
         e.update(env)
-    cmd = ["tlc", "-workers", str(workers), "-metadir", meta, "-cleanup", "-noGenerateSpecTE"]
+    # no checkpoints: nothing is ever resumed, and the depth-first queue cannot be checkpointed (a run that reaches
+    # the default 30-minute checkpoint would die with UnsupportedOperationException)
+    cmd = ["tlc", "-workers", str(workers), "-metadir", meta, "-cleanup", "-noGenerateSpecTE", "-checkpoint", "0"]
     if coverage:
         cmd += ["-coverage", "1"]
     if simulate:
